@@ -161,10 +161,20 @@ P256_N = 0xFFFFFFFF00000000FFFFFFFFFFFFFFFFBCE6FAADA7179E84F3B9CAC2FC632551
 
 
 class FakeDatetime(_dt.datetime):
-    """Stands in for `datetime` in admin.certificate_v2 (the clock of validity checks)."""
+    """Stands in for `datetime` in admin.certificate_v2 (the clock of validity checks). Like the
+    real class on a host whose time zone is not UTC, now() without a time zone gives naive LOCAL
+    time: `local_offset` is the host's UTC offset in seconds."""
+    local_offset = 0
+
     @classmethod
     def now(cls, tz=None):
-        return NOW if tz is not None else NOW.replace(tzinfo=None)
+        if tz is not None:
+            return NOW.astimezone(tz)
+        return (NOW + _dt.timedelta(seconds=cls.local_offset)).replace(tzinfo=None)
+
+    @classmethod
+    def utcnow(cls):
+        return NOW.replace(tzinfo=None)
 
 
 def p256_key(k, curve=None, role=None):
@@ -188,6 +198,8 @@ def pub_raw64(priv_or_pub):
 WINDOWS = {
     "valid": (-86400, 86400), "expired": (-172800, -1), "not-yet": (1, 172800),
     "ends-now": (-86400, 0), "starts-now": (0, 86400), "long": (-10 ** 8, 10 ** 8),
+    "expired-1h": (-86400, -3600), "not-yet-1h": (3600, 86400),
+    "ends-in-1h": (-86400, 3600), "started-1h-ago": (-3600, 86400),
 }
 
 
